@@ -26,6 +26,7 @@ func init() {
 	execs["c13.walk"] = execC13Walk
 	execs["c13.wait"] = execC13Wait
 	execs["c13.add"] = execC13Add
+	execs["c13.entry"] = execC13Entry
 	execs["c13.repro"] = execC13Repro
 	gens["C13"] = genC13
 }
@@ -438,6 +439,7 @@ func genC13(c *Ctx) {
 	genC13Walks(c, f)
 	genC13Waits(c, f)
 	genC13Waits2(c, f)
+	genC13Entries(c, f)
 }
 
 var _ = prng.New
